@@ -253,6 +253,8 @@ pub struct Monitor {
     disp_reg_failed: bool,
     disp_timeout_ms: u32,
     disp_synth_promised: bool,
+    /// time of the first user callback of the current dispatch (the wait is over by then)
+    disp_first_cb_ns: Option<i64>,
     tasks: Vec<MTask>,
     asyncs: Vec<MAsync>,
     pending_adapt: Option<(Option<usize>, bool)>,
@@ -328,6 +330,7 @@ impl Monitor {
             disp_reg_failed: false,
             disp_timeout_ms: 0,
             disp_synth_promised: false,
+            disp_first_cb_ns: None,
             tasks: vec![],
             asyncs: vec![],
             pending_adapt: None,
@@ -1620,6 +1623,7 @@ impl Monitor {
             Ev::DispBegin { t_ns, timeout_ms } => {
                 self.disp_timeout_ms = *timeout_ms;
                 self.disp_synth_promised = false;
+                self.disp_first_cb_ns = None;
                 self.in_disp = true;
                 self.disp_no += 1;
                 self.disp_t0 = *t_ns;
@@ -1791,6 +1795,9 @@ impl Monitor {
             }
             Ev::Cb { src, payload, t_ns } => {
                 let s = *src;
+                if self.in_disp && self.disp_first_cb_ns.is_none() {
+                    self.disp_first_cb_ns = Some(*t_ns);
+                }
                 self.facts.callbacks += 1;
                 self.cur_cb = Some(s);
                 self.cb_depth += 1;
@@ -2189,7 +2196,8 @@ impl Monitor {
                         }
                         // a synthetic event forces a non-blocking wait: a long-timeout dispatch must not have slept
                         if self.disp_synth_promised && self.disp_timeout_ms >= 150 && !self.disp_hooks_failed {
-                            let waited_ms = (*t_ns - self.disp_t0) / 1_000_000;
+                            // up to the first callback: what the callbacks of the batch cost afterwards is not the wait
+                            let waited_ms = (self.disp_first_cb_ns.unwrap_or(*t_ns) - self.disp_t0) / 1_000_000;
                             self.facts.long_dispatch_with_synthetic += 1;
                             if waited_ms >= 100 {
                                 return viol(
